@@ -408,21 +408,32 @@ def _find_fn(m, pred):
     return hits[0] if len(hits) == 1 else None
 
 
+def _lane_accessors(m):
+    """the two functions that address a sub-byte lane of the command buffer by a flat index: they take
+    (self, index[, value]), subscript an array and split the index with a shift or a division"""
+    getters, setters = [], []
+    for name, fn in m.prog.functions.items():
+        ps = fn['_params']
+        body = list(walk(fn['_body']))
+        if not any(x.get('kind') == 'ArraySubscriptExpr' for x in body):
+            continue
+        if not any(x.get('kind') in ('BinaryOperator', 'CompoundAssignOperator') and x.get('opcode') in ('>>', '/', '>>=', '/=') for x in body):
+            continue
+        rt = fn['type']['qualType'].split('(')[0].strip()
+        if len(ps) == 2 and rt in ('uint8_t', 'unsigned char'):
+            getters.append(name)
+        elif len(ps) == 3 and rt == 'void':
+            setters.append(name)
+    if len(getters) != 1 or len(setters) != 1:
+        raise AnalysisBroken('anchor vanished: match-lane accessors (getters %s, setters %s)' % (getters, setters))
+    return getters[0], setters[0]
+
+
 def _lanes(ctx):
     """the 2-bit match lanes: writing lane i changes lane i only, reads back the value written, for every
     position in a byte and every previous byte content that the code can produce"""
     m = ctx.model
-    getter = setter = None
-    for name, fn in m.prog.functions.items():
-        ps = fn['_params']
-        if any(x.get('kind') == 'BinaryOperator' and x.get('opcode') == '>>' for x in walk(fn['_body'])):
-            rt = fn['type']['qualType'].split('(')[0].strip()
-            if len(ps) == 2 and rt in ('uint8_t', 'unsigned char'):
-                getter = name
-            elif len(ps) == 3 and rt == 'void':
-                setter = name
-    if getter is None or setter is None:
-        raise AnalysisBroken('anchor vanished: match-lane accessors')
+    getter, setter = _lane_accessors(m)
     n = 0
     for b0 in (0x55, 0x00, 0xAA, 0x66, 0x99, 0x12):
         for i in range(8):
@@ -460,12 +471,12 @@ def _match_step(ctx, ts):
     differ; FULL iff equal at the last character"""
     m = ctx.model
     n = 0
+    lane_setter = _lane_accessors(m)[1]
     for t in ts:
         if not t.frm.endswith('UPDATE_COMMAND_STATE'):
             continue
         for seq in trace_paths(t.t['trace'], limit=20000, keep=_KEEP_TAB):
-            sets = [e for e in seq if e['k'] == 'enter' and len(e.get('args', ())) == 3 and cval(e['args'][2]) in (0, 1, 2)
-                    and any(x.get('kind') == 'BinaryOperator' and x.get('opcode') == '>>' for x in walk(m.prog.functions[e['name']]['_body']))]
+            sets = [e for e in seq if e['k'] == 'enter' and e['name'] == lane_setter and len(e.get('args', ())) == 3 and cval(e['args'][2]) in (0, 1, 2)]
             if not sets:
                 continue
             n += 1
